@@ -9,6 +9,8 @@ hist shape=<n|i3|t2;3|t> ops=g5,g,s7,Si4,St2;3,Sn
      → one field per state (constructor first, then one per op), separated by " | ":
        k=<next sample> e=<epoch> shape=<..> prod=<block|-> last=<block|->
        block = dims(;)/first/count/epoch
+histx shape=<n|i3|t2;3> ops=g,g5,g-3,gx,s7,s-1,sx,Sn,Si3,Si-1,St2;-1,Sx
+     → same fields as `hist` plus err=<-|ValueError|TypeError> per call (raw calls, rejected ones included)
 val Fd=f.. Ts=f.. first=<nat> j=<nat> phi=f..,f.. psi=f..,f..
                                                     → t=f.. re=f.. im=f.. | error:ZeroDivisionError
                                                       (entry j of a block whose first sample is `first`)
@@ -54,12 +56,47 @@ def histStates (a : ShapeArg) (ops : List Op) : List String :=
     | op :: rest => showState (step s op) (produced s op) :: go (step s op) rest
   showState s0 s0.last :: go s0 ops
 
+def parseSize? (s : String) : Option SizeArg :=
+  if s = "" then some .default
+  else if s = "x" then some .notInt
+  else s.toInt?.map .int
+
+def parseRawShape? (s : String) : Option RawShape :=
+  if s = "n" then some .none
+  else if s = "x" then some .notShape
+  else if s.startsWith "i" then (s.drop 1).toString.toInt?.map .int
+  else if s.startsWith "t" then (parseIntList? (s.drop 1).toString ";").map .seq
+  else none
+
+def parseRawOp? (s : String) : Option RawOp :=
+  if s.startsWith "g" then (parseSize? (s.drop 1).toString).map .gen
+  else if s.startsWith "s" then (parseSize? (s.drop 1).toString).map .skip
+  else if s.startsWith "S" then (parseRawShape? (s.drop 1).toString).map .setShape
+  else none
+
+def histStatesR (a : ShapeArg) (ops : List RawOp) : List String :=
+  let s0 := construct a
+  let rec go (s : State) : List RawOp → List String
+    | [] => []
+    | r :: rest =>
+      let (s', err) := stepR s r
+      let prod := match r.check with
+        | .ok op => produced s op
+        | .error _ => none
+      (showState s' prod ++ " err=" ++ (match err with | none => "-" | some e => toString e)) :: go s' rest
+  (showState s0 s0.last ++ " err=-") :: go s0 ops
+
 def handle (toks : List String) : String :=
   match toks with
   | "hist" :: rest =>
     match (kv rest "shape").bind parseShape?, (kv rest "ops").bind (fun s => (fields s ",").mapM parseOp?) with
     | some a, some ops => " | ".intercalate (histStates a ops)
     | some a, none => if (kv rest "ops").isNone then " | ".intercalate (histStates a []) else "bad-op"
+    | _, _ => "bad-op"
+  | "histx" :: rest =>
+    match (kv rest "shape").bind parseShape?, (kv rest "ops").bind (fun s => (fields s ",").mapM parseRawOp?) with
+    | some a, some ops => " | ".intercalate (histStatesR a ops)
+    | some a, none => if (kv rest "ops").isNone then " | ".intercalate (histStatesR a []) else "bad-op"
     | _, _ => "bad-op"
   | "val" :: rest =>
     match (kv rest "Fd").bind parseFloat?, (kv rest "Ts").bind parseFloat?, (kv rest "first").bind String.toNat?,
